@@ -18,8 +18,38 @@ pub fn open_with(
     b.custom = custom;
     net.set_reactor(Box::new(b));
     prep(&net);
-    let r = Connection::insecure_open_stream(stream, options, tuning);
-    (r, net)
+    // The handshake runs under a hang limit like every other blocking call: a connection that
+    // never finishes opening over this transport is reported (record `hang what=open`, exit
+    // code 97) instead of blocking the check for ever.
+    let limit = Duration::from_millis(
+        std::env::var("VH_OPEN_LIMIT_MS").ok().and_then(|s| s.parse().ok()).unwrap_or(20_000),
+    );
+    let (tx, rx) = mpsc::channel();
+    let worker = std::thread::Builder::new()
+        .name("vh-open".into())
+        .spawn(move || {
+            let r = Connection::insecure_open_stream(stream, options, tuning);
+            let _ = tx.send(r);
+        })
+        .expect("spawn open worker");
+    match rx.recv_timeout(limit) {
+        Ok(r) => (r, net),
+        Err(mpsc::RecvTimeoutError::Disconnected) => {
+            // the opening thread panicked: let the caller's panic capture see it
+            match worker.join() {
+                Err(p) => std::panic::resume_unwind(p),
+                Ok(()) => unreachable!("open worker ended without a result"),
+            }
+        }
+        Err(mpsc::RecvTimeoutError::Timeout) => {
+            crate::trace::gev(serde_json::json!({"ev":"hang","what":"open"}));
+            if let Some(sh) = crate::trace::global_take() {
+                let _ = sh.finish();
+            }
+            eprintln!("OPENHANG the AMQP handshake did not finish within {} ms", limit.as_millis());
+            std::process::exit(97);
+        }
+    }
 }
 
 pub fn open_default(cfg: BrokerCfg) -> (Connection, Net) {
